@@ -46,7 +46,7 @@ theorem release_q (s : State) (k : Key) (ip : IP) : Quiet7 s (release s k ip).1 
 
 theorem unbind_q (F : Plugin.Facts) (s : State) (pod : Pod) : Quiet7 s (unbind F s pod).1 := by
   unfold unbind
-  dsimp only
+  try dsimp only
   split
   · exact Quiet7.refl s
   · have u := Quiet7.of_quiet (unassignAll_quiet (ipsOfKey s (keyOf pod)) s)
@@ -72,9 +72,22 @@ theorem deliver_q (F : Plugin.Facts) (s : State) (i : Nat) : Quiet7 s (deliver F
 
 /-! ### resync -/
 
+theorem resyncAct_q (s : State) (ip : IP) (k : Key) (r : Rec) : Quiet7 s (resyncAct s ip k r) := by
+  unfold resyncAct
+  split
+  · have pu := Quiet7.of_quiet (provUnassign_quiet s r.node ip)
+    split
+    · exact pu
+    · have rs := pu.trans (reserveSelf_q _ k)
+      split
+      · exact rs.trans (unbindDp_q _ _ _)
+      · exact rs.trans (unbindOther_q _ _ _)
+  · split
+    · exact unbindDp_q _ _ _
+    · exact unbindOther_q _ _ _
+
 theorem resyncOne_q (F : Plugin.Facts) (s : State) (ip : IP) (r0 : Rec) : Quiet7 s (resyncOne F s ip r0) := by
   unfold resyncOne
-  dsimp only
   split
   · exact Quiet7.refl s
   · rename_i r _
@@ -83,17 +96,10 @@ theorem resyncOne_q (F : Plugin.Facts) (s : State) (ip : IP) (r0 : Rec) : Quiet7
     · have pr := Quiet7.of_quiet (podRunning_quiet F s r0.key.pod r0.key.ns r.uid).1
       split
       · exact pr
-      · split
-        · have pu := pr.trans (Quiet7.of_quiet (provUnassign_quiet (podRunning F s r0.key.pod r0.key.ns r.uid).1 r.node ip))
-          split
-          · exact pu
-          · have rs := pu.trans (reserveSelf_q _ r0.key)
-            split
-            · exact rs.trans (unbindDp_q _ _ _)
-            · exact rs.trans (unbindOther_q _ _ _)
-        · split
-          · exact pr.trans (unbindDp_q _ _ _)
-          · exact pr.trans (unbindOther_q _ _ _)
+      · have ko := pr.trans (Quiet7.of_quiet (keyOwned_quiet F (podRunning F s r0.key.pod r0.key.ns r.uid).1 r0.key r.uid).1)
+        split
+        · exact ko
+        · exact ko.trans (resyncAct_q _ ip r0.key r)
 
 theorem resyncLoop_q (F : Plugin.Facts) (snap : Tbl IP Rec) : ∀ (l : List IP) (s : State), Quiet7 s (resyncLoop F snap s l) := by
   intro l
@@ -124,6 +130,17 @@ theorem releasePre_q (s : State) (node : String) (ip : IP) (k : Key) : Quiet7 s 
     · exact pu.trans (reserveSelf_q _ k)
   · exact Quiet7.refl s
 
+theorem releaseAct_q (F : Plugin.Facts) (s : State) (ip : IP) (k : Key) (uid : Nat) (node : String) :
+    Quiet7 s (releaseAct F s ip k uid node).1 := by
+  unfold releaseAct
+  have ko := Quiet7.of_quiet (keyOwned_quiet F s k uid).1
+  split
+  · exact ko
+  · have rp := ko.trans (releasePre_q (keyOwnedByRunningPod F s k uid).1 node ip k)
+    split
+    · exact rp.trans (release_q _ k ip)
+    · exact rp
+
 theorem apiRelease_q (F : Plugin.Facts) (s : State) (ip : IP) (k : Key) : Quiet7 s (apiRelease F s ip k).1 := by
   unfold apiRelease
   split
@@ -131,11 +148,7 @@ theorem apiRelease_q (F : Plugin.Facts) (s : State) (ip : IP) (k : Key) : Quiet7
   · have pr := Quiet7.of_quiet (podRunning_quiet F s k.pod k.ns (((Tbl.get s.alloc ip).map (·.uid)).getD 0)).1
     split
     · exact pr
-    · have rp := pr.trans (releasePre_q (podRunning F s k.pod k.ns (((Tbl.get s.alloc ip).map (·.uid)).getD 0)).1
-        (((Tbl.get s.alloc ip).map (·.node)).getD "") ip k)
-      split
-      · exact rp.trans (release_q _ k ip)
-      · exact rp
+    · exact pr.trans (releaseAct_q F _ ip k _ _)
 
 /-! ### bind -/
 
